@@ -293,7 +293,8 @@ Definition init_st (c : acfg) : st :=
     clear), then the events; per-event outputs are kept separate (round index
     -1 is the initial round).  After an evaluation error the loop stops but
     the deferred checkFinal still runs: remaining non-final events are
-    skipped. *)
+    skipped.  An error in the INITIAL round returns before that deferred
+    function is registered: nothing else happens. *)
 Fixpoint run_events (c : acfg) (s : st) (stt : status) (es : list event) : list (list out) * st * status :=
   match es with
   | [] => ([], s, stt)
@@ -315,5 +316,7 @@ Fixpoint run_events (c : acfg) (s : st) (stt : status) (es : list event) : list 
 Definition run_audition (c : acfg) (es : list event) : list (list out) * st * status :=
   let s0 := init_st c in
   let '(s1, o0, st0) := mood_change c s0 false 0 "clear" in
-  let '(os, s2, st2) := run_events c s1 st0 es in
-  (o0 :: os, s2, st2).
+  match st0 with
+  | Running => let '(os, s2, st2) := run_events c s1 Running es in (o0 :: os, s2, st2)
+  | _ => ([o0], s1, st0)     (* audit() returns before its deferred final round is even registered *)
+  end.
